@@ -533,5 +533,30 @@ pub fn check_timeline(c: &SimCase, run: &SimRun) -> (Vec<Viol>, Stats) {
             }
         }
     }
+    // E. the run ended because nothing at all was left to do (it was told to go on after the last normal
+    // packet and stopped short of every bound): whatever was pending must have happened
+    if c.cont && c.max_trace_length == 0 && ev.len() < c.max_iter && !c.only_client && !c.only_network {
+        let i = ev.len().saturating_sub(1);
+        bump("runs_that_ended_with_nothing_left_to_do");
+        for cl in [false, true] {
+            let s = &sides[cl as usize];
+            for m in 0..s.pend.len() {
+                if let Some(p) = &s.pend[m] {
+                    viol!(17, "C17/action-not-fired-when-due/run-ended-with-it-pending", i, "{} machine {m}: the run ended with nothing left to simulate ({} events, bound {}) although {} due at t={} was neither fired nor superseded", side_name(cl), ev.len(), c.max_iter, if p.kind == 1 { "SendPadding" } else { "BlockOutgoing" }, p.due);
+                }
+                if let Some(f) = s.firedq[m].first() {
+                    viol!(17, "C17/fired-but-not-reported/run-ended", i, "{} machine {m}: the run ended although the fired action {:?} was never reported", side_name(cl), f.p);
+                }
+                if s.timer[m].is_some() || !s.timer_firedq[m].is_empty() {
+                    viol!(18, "C18/timer-end-missing/run-ended-with-the-timer-running", i, "{} machine {m}: the run ended with nothing left to simulate ({} events, bound {}) although the internal timer (expiry {:?}) had neither ended nor been cancelled", side_name(cl), ev.len(), c.max_iter, s.timer[m].or(s.timer_firedq[m].first().map(|x| x.0)));
+                }
+            }
+            if let Some(b) = &s.blk {
+                if !s.blk_unknown && !b.zero_started && !s.premature {
+                    viol!(16, "C16/blocking-end-missing/run-ended-while-blocking", i, "{}: the run ended with nothing left to simulate although blocking until t={} was never ended", side_name(cl), b.until);
+                }
+            }
+        }
+    }
     (viols, st)
 }
